@@ -795,8 +795,9 @@ func genSched(r *Rand, g GenCfg) Plan {
 	for k := 0; k < nl; k++ {
 		d := DlgSpec{Label: fmt.Sprintf("d%d", k), Iss: holders[k], Aud: holders[k+1], Sub: sub, Cmd: "/", NonceLen: 12, Meta: mkMeta()}
 		if r.Chance(0.5) {
-			d.Pol = genPolicy(r, argv, r.Range(0, 2))
+			d.Pol = genPolicy(r, argv, r.Range(0, 4))
 		}
+		d.PolSpare = r.Chance(0.4)
 		if r.Chance(0.4) {
 			d.Exp = &far
 		}
@@ -813,7 +814,7 @@ func genSched(r *Rand, g GenCfg) Plan {
 	for i := 0; i < nl; i++ {
 		targets = append(targets, fmt.Sprintf("dlg%d", i))
 	}
-	invOps := []string{"ExecutionAllowed", "ExecutionAllowed", "ExecutionAllowedHook", "ToSealed", "ToSealedWriter", "ToDagCbor", "ToDagJson", "Encode", "Accessors", "IsValid",
+	invOps := []string{"ExecutionAllowed", "ExecutionAllowed", "ExecutionAllowed", "ExecutionAllowed", "ExecutionAllowed", "ExecutionAllowedHook", "ToSealed", "ToSealedWriter", "ToDagCbor", "ToDagJson", "Encode", "Accessors", "IsValid",
 		"ArgsIter", "ArgsString", "ArgsToIPLD", "ArgsGetNode", "ArgsEquals", "ArgsClone", "ArgsCloneMutate", "MetaCloneMutate", "ExecutionAllowedHookAdd", "MetaIter", "MetaString", "MetaGet", "MetaGetEncrypted", "MetaEquals", "MetaClone",
 		"StoreGet", "StoreIter", "ContainerWrite"}
 	dlgOps := []string{"ToSealed", "ToSealedWriter", "ToDagJson", "Encode", "Accessors", "IsValid", "MetaIter", "MetaString", "MetaGet", "MetaEquals", "MetaClone", "MetaCloneMutate", "PolicyString", "PolicyMatch", "StoreGet"}
